@@ -129,7 +129,8 @@ def storeOfJson (j : Json) : Except String (Store Float32) := do
     | v => do pure (some (← f32List v)))
 
 /--
-* `{"op":"search","schema":[…],"segments":[[doc…]…],"req":{…}}` → outcome of `searchReq`
+* `{"op":"search","schema":[…],"segments":[[doc…]…],"req":{…}[,"compacted":true]}` → outcome of
+  `searchReq` (on `compactSegs segments` when `compacted`)
 * `{"op":"plan","schema":[…],"req":{…}}` → the plan (`buildPlan` + `effectivePlan`)
 * `{"op":"graph","metric":…,"store":[vec|null…],"m":…,"efc":…}` → `buildGraph` on the prepared store
 * `{"op":"hnsw_search","metric":…,"store":…,"m":…,"efc":…,"q":[…],"k":…,"ef":…}` → `search` on that graph
@@ -143,6 +144,8 @@ def handle (req : Json) : Except String Json := do
     let segs ← (← getArr req "segments").toList.mapM (fun s => do
       (← s.getArr?).toList.mapM sdocOf)
     let r ← reqOf (← req.getObjVal? "req")
+    -- `"compacted": true` = the same request after `Index::compact`
+    let segs := if getBoolD req "compacted" false then compactSegs segs else segs
     match searchReq schema segs r with
     | .error e => return Json.mkObj [("outcome", "error"), ("err", errName e)]
     | .textOnly => return Json.mkObj [("outcome", "text_only")]
